@@ -18,7 +18,12 @@ Import ListNotations.
 Definition host_gt (c : nat) (fs : fstate) : Prop :=
   match f_leaf fs with LHost x _ _ _ => c < x | _ => True end.
 Definition tasks_of (cm : cmdst) (t : trec) : Prop := In (Occ t) (c_ent cm) \/ In t (c_spawnq cm).
-Definition OrdH (H : heap) : Prop := forall c t, tasks_of (gcmd c H) t -> host_gt c (t_fs t).
+(* ... and the cell of a command only ever holds a waker of a command created earlier (its host's) or of the executor *)
+Definition waker_lt (w : waker) (x : nat) : Prop := match w with WCmd c _ _ => c < x | WExec _ => True end.
+Definition waker_in (c : nat) (w : waker) : Prop := match w with WCmd c' _ _ => c' = c | WExec _ => True end.
+Definition OrdH (H : heap) : Prop :=
+  (forall c t, tasks_of (gcmd c H) t -> host_gt c (t_fs t)) /\
+  (forall z w, c_atomic (gcmd z H) = Some w -> waker_lt w z).
 
 (* the cell of command P still holds w0, or w0 has been woken *)
 Definition Q (P : nat) (w0 : waker) (H : heap) : Prop := c_atomic (gcmd P H) = Some w0 \/ woken_of w0 H.
@@ -32,16 +37,16 @@ Section Steps.
   Notation St := (St P w0).
   Notation Q := (Q P w0).
 
-  Lemma St_refl H : St H H. Proof. repeat split; auto. Qed.
+  Lemma St_refl H : St H H. Proof. split; [auto | split; [auto | apply le_n]]. Qed.
   Lemma St_trans a b c : St a b -> St b c -> St a c.
-  Proof. intros (A1 & A2 & A3) (B1 & B2 & B3). repeat split; auto; lia. Qed.
+  Proof. intros (A1 & A2 & A3) (B1 & B2 & B3). split; [auto | split; [auto | lia]]. Qed.
 
   Lemma woken_of_mono H H' : Rwoken H H' -> woken_of w0 H -> woken_of w0 H'.
   Proof. intros R. unfold woken_of. destruct w0; auto. Qed.
   (* steps that leave the command table alone and only ever set woken flags *)
   Lemma St_cmds_same H H' : cmds H' = cmds H -> Rwoken H H' -> St H H'.
   Proof.
-    intros E R. repeat split.
+    intros E R. split; [|split].
     - unfold OrdH, gcmd. rewrite E. auto.
     - intros [A|W]; [left; unfold gcmd in *; rewrite E; exact A | right; eapply woken_of_mono; eauto].
     - rewrite E. lia.
@@ -54,10 +59,14 @@ Section Steps.
     (forall cm, c_atomic (f cm) = c_atomic cm) ->
     (forall cm t, tasks_of (f cm) t -> tasks_of cm t \/ host_gt c (t_fs t)) -> St H (ucmd c f H).
   Proof.
-    intros Fa Ft. repeat split.
-    - intros O c' t T. destruct (Nat.eq_dec c c') as [->|Hne].
-      + rewrite gcmd_ucmd_same in T. destruct (Ft _ _ T) as [T'|G]; [apply O; exact T' | exact G].
-      + rewrite gcmd_ucmd_other in T by exact Hne. apply O; exact T.
+    intros Fa Ft. split; [|split].
+    - intros (O & Oa). split.
+      + intros c' t T. destruct (Nat.eq_dec c c') as [->|Hne].
+        * rewrite gcmd_ucmd_same in T. destruct (Ft _ _ T) as [T'|G]; [apply O; exact T' | exact G].
+        * rewrite gcmd_ucmd_other in T by exact Hne. apply O; exact T.
+      + intros z w A. destruct (Nat.eq_dec c z) as [->|Hne].
+        * rewrite gcmd_ucmd_same, Fa in A. apply Oa; exact A.
+        * rewrite gcmd_ucmd_other in A by exact Hne. apply Oa; exact A.
     - intros [A|W]; [left | right; exact W].
       destruct (Nat.eq_dec c P) as [->|Hne]; [rewrite gcmd_ucmd_same, Fa; exact A | rewrite gcmd_ucmd_other by exact Hne; exact A].
     - unfold ucmd; simpl. apply length_updd.
@@ -70,12 +79,16 @@ Section Steps.
   Ltac plain := apply St_ucmd_plain; intros cm; destruct cm; reflexivity.
 
   (* registering a waker in the cell of another command *)
-  Lemma St_set_atomic c a H : c <> P -> St H (ucmd c (set_atomic a) H).
+  Lemma St_set_atomic c a H : c <> P -> match a with Some w => waker_lt w c | None => True end -> St H (ucmd c (set_atomic a) H).
   Proof.
-    intros Hne. repeat split.
-    - intros O c' t T. destruct (Nat.eq_dec c c') as [->|Hn].
-      + rewrite gcmd_ucmd_same in T. apply O. destruct (gcmd c' H); exact T.
-      + rewrite gcmd_ucmd_other in T by exact Hn. apply O; exact T.
+    intros Hne Ha. split; [|split].
+    - intros (O & Oa). split.
+      + intros c' t T. destruct (Nat.eq_dec c c') as [->|Hn].
+        * rewrite gcmd_ucmd_same in T. apply O. destruct (gcmd c' H); exact T.
+        * rewrite gcmd_ucmd_other in T by exact Hn. apply O; exact T.
+      + intros z w A. destruct (Nat.eq_dec c z) as [->|Hn].
+        * rewrite gcmd_ucmd_same in A. destruct (gcmd z H); cbn in A. destruct a as [w'|]; [inversion A; subst; exact Ha | discriminate].
+        * rewrite gcmd_ucmd_other in A by exact Hn. apply Oa; exact A.
     - intros [A|W]; [left; rewrite gcmd_ucmd_other by exact Hne; exact A | right; exact W].
     - unfold ucmd; simpl. apply length_updd.
   Qed.
@@ -118,15 +131,19 @@ Section Steps.
       destruct S2 as (O2 & Q2 & L2).
       assert (S3 : (OrdH (set_woken g H1) -> OrdH H3) /\ length (cmds (set_woken g H1)) <= length (cmds H3)).
       { split; [|unfold H3, ucmd; simpl; apply length_updd].
-        intros O c' t T. unfold H3 in T. destruct (Nat.eq_dec P c') as [->|Hn].
-        - rewrite gcmd_ucmd_same in T. apply O. destruct (gcmd c' (set_woken g H1)); exact T.
-        - rewrite gcmd_ucmd_other in T by exact Hn. apply O; exact T. }
-      destruct (IH w' H3) as (O4 & Q4 & L4). repeat split; [tauto | | lia].
+        intros (O & Oa). split.
+        - intros c' t T. unfold H3 in T. destruct (Nat.eq_dec P c') as [->|Hn].
+          + rewrite gcmd_ucmd_same in T. apply O. destruct (gcmd c' (set_woken g H1)); exact T.
+          + rewrite gcmd_ucmd_other in T by exact Hn. apply O; exact T.
+        - intros z w1 A. unfold H3 in A. destruct (Nat.eq_dec P z) as [->|Hn].
+          + rewrite gcmd_ucmd_same in A. destruct (gcmd z (set_woken g H1)); cbn in A. discriminate.
+          + rewrite gcmd_ucmd_other in A by exact Hn. apply Oa; exact A. }
+      destruct (IH w' H3) as (O4 & Q4 & L4). destruct S3 as (O3 & L3). split; [intros O0; apply O4, O3, O2, O0 | split; [|lia]].
       intros Q0. specialize (Q2 Q0). destruct Q2 as [A|W].
       + (* the cell held w0: it is woken now *)
         rewrite EA in A. inversion A; subst w'. right. apply wake_woken_of.
       + right. eapply woken_of_mono; [|exact W]. eapply Rwoken_trans; [|apply Rwoken_wake]. apply Rwoken_same; reflexivity.
-    - eapply St_trans; [exact S2|]. eapply St_trans; [apply St_set_atomic; exact Hne | apply IH].
+    - eapply St_trans; [exact S2|]. eapply St_trans; [apply (St_set_atomic c None); [exact Hne | exact I] | apply IH].
   Qed.
 
   Lemma St_fold {A} (g : heap -> A -> heap) (l : list A) : (forall x H, St H (g H x)) -> forall H, St H (fold_left g l H).
@@ -234,13 +251,20 @@ Section Steps2.
   Lemma St_add_cmd cnew H : (forall t, tasks_of cnew t -> host_gt (length (cmds H)) (t_fs t)) -> c_atomic cnew = None ->
     St H (mkH (chans H) (tfl H) (cmds H ++ [cnew]) (woken H) (xready H) (aborted H) (log H) (hout H)).
   Proof.
-    intros Tn An. repeat split; simpl.
-    - intros O c t T. unfold gcmd, getd in T; simpl in T.
-      destruct (Nat.lt_ge_cases c (length (cmds H))) as [L|L].
-      + rewrite app_nth1 in T by exact L. apply O. exact T.
-      + destruct (Nat.eq_dec c (length (cmds H))) as [->|Hne].
-        * rewrite app_nth2 in T by lia. rewrite Nat.sub_diag in T. simpl in T. apply Tn; exact T.
-        * rewrite nth_overflow in T by (rewrite app_length; simpl; lia). destruct T as [[]|[]].
+    intros Tn An. split; [|split]; simpl.
+    - intros (O & Oa). split.
+      + intros c t T. unfold gcmd, getd in T; simpl in T.
+        destruct (Nat.lt_ge_cases c (length (cmds H))) as [L|L].
+        * rewrite app_nth1 in T by exact L. apply O. exact T.
+        * destruct (Nat.eq_dec c (length (cmds H))) as [->|Hne].
+          -- rewrite app_nth2 in T by lia. rewrite Nat.sub_diag in T. simpl in T. apply Tn; exact T.
+          -- rewrite nth_overflow in T by (rewrite app_length; simpl; lia). destruct T as [[]|[]].
+      + intros z w A. unfold gcmd, getd in A; simpl in A.
+        destruct (Nat.lt_ge_cases z (length (cmds H))) as [L|L].
+        * rewrite app_nth1 in A by exact L. apply Oa. exact A.
+        * destruct (Nat.eq_dec z (length (cmds H))) as [->|Hne].
+          -- rewrite app_nth2 in A by lia. rewrite Nat.sub_diag in A. simpl in A. rewrite An in A. discriminate.
+          -- rewrite nth_overflow in A by (rewrite app_length; simpl; lia). discriminate.
     - intros [A|W]; [left | right; exact W]. unfold gcmd, getd in *; simpl.
       destruct (Nat.lt_ge_cases P (length (cmds H))) as [L|L]; [rewrite app_nth1 by exact L; exact A|].
       rewrite nth_overflow in A by exact L. discriminate.
@@ -297,14 +321,14 @@ End Steps2.
 
 (* ---------- the runtime functions ---------- *)
 Definition specH (F : rtfuns) : Prop :=
-  (forall P w0 c w fs H r H', P <= c -> c < length (cmds H) -> host_gt c fs -> OrdH H ->
+  (forall P w0 c w fs H r H', P <= c -> c < length (cmds H) -> host_gt c fs -> waker_in c w -> OrdH H ->
       rpoll F c w fs H = Some (r, H') ->
       St P w0 H H' /\
       match r with
       | Pend fs' => host_gt c fs' /\ (forall x me mv k, f_leaf fs' = LHost x me mv k -> Q x w H')
       | Rdy => True
       end) /\
-  (forall P w0 x w H r H', P < x -> OrdH H -> rpoll_next F x w H = Some (r, H') ->
+  (forall P w0 x w H r H', P < x -> waker_lt w x -> OrdH H -> rpoll_next F x w H = Some (r, H') ->
       St P w0 H H' /\ (r = PNPending -> Q x w H')) /\
   (forall P w0 c H H', P <= c -> OrdH H -> rsettle F c H = Some H' -> St P w0 H H') /\
   (forall P w0 c H H', P <= c -> OrdH H -> rloop F c H = Some H' -> St P w0 H H') /\
@@ -322,7 +346,8 @@ Ltac hg := unfold host_gt; simpl; try exact I; try assumption.
 Ltac rec_poll IHp P w0 Pc Lc O S01 G1 E :=
   let S1 := fresh "S1" in let R := fresh "R" in
   match type of E with rpoll _ ?c0 ?w1 ?fs1 ?H1 = Some (?r1, ?H2) =>
-    destruct (IHp P w0 c0 w1 fs1 H1 r1 H2 Pc (St_len P w0 _ _ _ S01 Lc) (G1 : host_gt c0 fs1) (St_ord P w0 _ _ S01 O) E) as (S1 & R);
+    match goal with Win : waker_in c0 w1 |- _ =>
+    destruct (IHp P w0 c0 w1 fs1 H1 r1 H2 Pc (St_len P w0 _ _ _ S01 Lc) (G1 : host_gt c0 fs1) Win (St_ord P w0 _ _ S01 O) E) as (S1 & R) end;
     split; [eapply St_trans; [exact S01 | exact S1] | exact R]
   end.
 Ltac ret_pend S01 := split; [exact S01 | split; [hg | intros ? ? ? ? EL'; simpl in EL'; discriminate]].
@@ -332,7 +357,7 @@ Proof.
   intros F (IHp & IHn & IHs & IHl & IHd & IHr).
   unfold specH. split; [|split; [|split; [|split; [|split]]]].
   - (* poll *)
-    intros P w0 c w fs H r H' Pc Lc G O E. cbn [step_funs rpoll] in E. unfold poll_body in E.
+    intros P w0 c w fs H r H' Pc Lc G Win O E. cbn [step_funs rpoll] in E. unfold poll_body in E.
     destruct (f_leaf fs) as [t|sent dead tg v ch x k| |u k|cid meff mev k|n k|lsent ltg lv lch lx k|qa qb x1 x2 k|qa qb x k] eqn:EL.
     + (* LRun *)
       destruct t.
@@ -392,7 +417,8 @@ Proof.
     + (* LHost *)
       assert (Gx : c < cid) by (unfold host_gt in G; rewrite EL in G; exact G).
       destruct (rpoll_next F cid w H) as [[rr H1]|] eqn:E1; [|discriminate].
-      destruct (IHn P w0 cid w H rr H1 ltac:(lia) O E1) as (S01 & Qp).
+      assert (Wl : waker_lt w cid) by (destruct w as [c0 s0 g0|q]; cbn in *; [subst; lia | exact I]).
+      destruct (IHn P w0 cid w H rr H1 ltac:(lia) Wl O E1) as (S01 & Qp).
       destruct rr.
       * inversion E; subst. split; [exact S01 | split; [exact G|]].
         intros x' me mv k' EL'. rewrite EL in EL'. inversion EL'; subst. apply Qp. reflexivity.
@@ -405,7 +431,7 @@ Proof.
         rec_poll IHp P w0 Pc Lc O S02 G E.
     + (* LYield *)
       destruct n; [rec_poll IHp P w0 Pc Lc O (St_refl P w0 H) I E|].
-      inversion E; subst. ret_pend (wake_St P w0 WF w H).
+      inversion E; subst. ret_pend (wake_St P w0 (wfuel w) w H).
     + (* LLeg *)
       set (H1 := if lsent then H else push_hout (mkEff ltg lv [] (RLegacy lch)) H) in *.
       assert (S01 : St P w0 H H1) by (subst H1; destruct lsent; [apply St_refl | apply St_push_hout]).
@@ -441,9 +467,9 @@ Proof.
         match type of E with rpoll F c w _ (sub_drop ?q H2) = _ => assert (S03 : St P w0 H (sub_drop q H2)) by (eapply St_trans; [exact S02 | apply St_sub_drop]) end.
         rec_poll IHp P w0 Pc Lc O S03 I E.
   - (* poll_next *)
-    intros P w0 x w H r H' Px O E. cbn [step_funs rpoll_next] in E. unfold poll_next_body in E.
+    intros P w0 x w H r H' Px Wl O E. cbn [step_funs rpoll_next] in E. unfold poll_next_body in E.
     set (H0' := ucmd x (set_atomic (Some w)) H) in *.
-    assert (S0 : forall P' w', P' < x -> St P' w' H H0') by (intros P' w' L; apply St_set_atomic; lia).
+    assert (S0 : forall P' w', P' < x -> St P' w' H H0') by (intros P' w' L; apply St_set_atomic; [lia | exact Wl]).
     assert (Q0 : Q x w H0') by (left; unfold H0'; rewrite gcmd_ucmd_same; destruct (gcmd x H); reflexivity).
     assert (O0 : OrdH H0') by (apply (St_ord P w0 _ _ (S0 P w0 Px) O)).
     destruct (rsettle F x H0') as [H1|] eqn:E1; [|discriminate].
@@ -479,7 +505,7 @@ Proof.
     match type of E with context[fold_left ?g ?l ?H0] => set (H1 := fold_left g l H0) in * end.
     assert (S01 : St P w0 H H1).
     { subst H1.
-      assert (Gl : forall t, In t (c_spawnq (gcmd c H)) -> host_gt c (t_fs t)) by (intros t It; apply (O c t); right; exact It).
+      assert (Gl : forall t, In t (c_spawnq (gcmd c H)) -> host_gt c (t_fs t)) by (intros t It; apply (proj1 O c t); right; exact It).
       eapply St_trans.
       - apply (St_ucmd P w0 c (set_spawnq [])); [intros cm; destruct cm; reflexivity|].
         intros cm t T. left. destruct cm; unfold tasks_of in *; simpl in *. destruct T as [T|[]]. left; exact T.
@@ -511,11 +537,11 @@ Proof.
     intros P w0 c s H r H' Pc O E. cbn [step_funs rrun_task] in E. unfold run_task_body in E.
     destruct (slab_get s (gcmd c H)) as [t|] eqn:ES; [|inversion E; subst; apply St_note].
     match type of E with (if ?b then _ else _) = _ => destruct b end; [inversion E; subst; apply St_note|].
-    pose proof (slab_get_lt _ _ _ _ ES) as Lc. pose proof (O c t (slab_get_tasks _ _ _ ES)) as G.
+    pose proof (slab_get_lt _ _ _ _ ES) as Lc. pose proof (proj1 O c t (slab_get_tasks _ _ _ ES)) as G.
     match type of E with context[rpoll F c ?w ?fs ?H1] => destruct (rpoll F c w fs H1) as [[pr H2]|] eqn:E2; [|discriminate] end.
     assert (S0 : St P w0 H (mkH (chans H) (tfl H) (cmds H) (woken H ++ [false]) (xready H) (aborted H) (log H) (hout H))) by apply St_add_gen.
     match type of E2 with rpoll _ _ ?w1 ?fs1 ?Hx = _ =>
-      destruct (IHp P w0 c w1 fs1 Hx pr H2 Pc Lc G (St_ord P w0 _ _ S0 O) E2) as (S2 & R) end.
+      destruct (IHp P w0 c w1 fs1 Hx pr H2 Pc Lc G (eq_refl : waker_in c w1) (St_ord P w0 _ _ S0 O) E2) as (S2 & R) end.
     assert (S02 : St P w0 H H2) by (eapply St_trans; [exact S0 | exact S2]).
     destruct pr as [fs'|].
     + destruct R as (G' & _).
@@ -534,13 +560,13 @@ Proof. induction fuel as [|f IH]; [apply specH0 | apply specH_step; exact IH]. Q
 (* ---------- consequences ---------- *)
 (* a Pending poll of a hosting task leaves the poll's waker in the hosted command's cell, or woken *)
 Theorem poll_registers_host : forall fuel c w fs H fs' H' x me mv k,
-  c < length (cmds H) -> host_gt c fs -> OrdH H ->
+  c < length (cmds H) -> host_gt c fs -> waker_in c w -> OrdH H ->
   poll fuel c w fs H = Some (Pend fs', H') -> f_leaf fs' = LHost x me mv k ->
   c < x /\ Q x w H' /\ OrdH H'.
 Proof.
-  intros fuel c w fs H fs' H' x me mv k Lc G O E EL.
+  intros fuel c w fs H fs' H' x me mv k Lc G Win O E EL.
   destruct (specH_all fuel) as (Sp & _).
-  destruct (Sp c w c w fs H (Pend fs') H' (le_n c) Lc G O E) as (S1 & G' & Qx).
+  destruct (Sp c w c w fs H (Pend fs') H' (le_n c) Lc G Win O E) as (S1 & G' & Qx).
   split; [unfold host_gt in G'; rewrite EL in G'; exact G' | split; [eapply Qx; exact EL | apply (St_ord _ _ _ _ S1 O)]].
 Qed.
 
@@ -597,11 +623,11 @@ Proof.
     rewrite X in Es'. inversion Es'. reflexivity. }
   subst t'. cbn [t_fs] in EL.
   assert (Lc : cid < length (cmds H)) by (eapply slab_get_lt; exact ES).
-  assert (G : host_gt cid (t_fs t)) by (apply (O cid t), slab_get_tasks with (s := slot); exact ES).
+  assert (G : host_gt cid (t_fs t)) by (apply (proj1 O cid t), slab_get_tasks with (s := slot); exact ES).
   assert (O1 : OrdH (mkH (chans H) (tfl H) (cmds H) (woken H ++ [false]) (xready H) (aborted H) (log H) (hout H)))
     by (apply (St_ord 0 w _ _ (St_add_gen 0 w H) O)).
   match type of E2 with rpoll _ _ _ _ ?Hx = _ =>
-    destruct (poll_registers_host fuel cid w (t_fs t) Hx fs' H2 x meff mev k Lc G O1 E2 EL) as (Gx & Qx & _) end.
+    destruct (poll_registers_host fuel cid w (t_fs t) Hx fs' H2 x meff mev k Lc G (eq_refl : waker_in cid w) O1 E2 EL) as (Gx & Qx & _) end.
   destruct Qx as [A|W].
   - (* the cell still holds this poll's waker: a clone survives *)
     assert (A3 : c_atomic (gcmd x H3) = Some w) by (unfold H3; rewrite gcmd_ucmd_other by lia; exact A).
@@ -613,7 +639,10 @@ Qed.
 (* ---------- the order invariant holds in every state a host can reach ---------- *)
 From Crux Require Import Rt.Host.
 Lemma OrdH_H0 : OrdH H0.
-Proof. intros c t T. unfold gcmd, getd in T. simpl in T. destruct c; destruct T as [[]|[]]. Qed.
+Proof.
+  split; [intros c t T; unfold gcmd, getd in T; simpl in T; destruct c; destruct T as [[]|[]]|].
+  intros z w A. unfold gcmd, getd in A. simpl in A. destruct z; discriminate.
+Qed.
 Lemma OrdH_new_cmd names ep en m ex H cid H1 : new_cmd names ep en m ex H = (cid, H1) -> OrdH H -> OrdH H1.
 Proof. intros E. apply (St_ord 0 (WExec 0) _ _ (St_new_cmd 0 (WExec 0) _ _ _ _ _ _ _ _ E)). Qed.
 Lemma OrdH_settle fuel c H H' : settle fuel c H = Some H' -> OrdH H -> OrdH H'.
@@ -706,15 +735,15 @@ Qed.
    the host's task: Chain.wake_queues_task) or the host is queued already.  One layer of "a call runs to
    quiescence and no wake-up is lost between layers". *)
 Theorem poll_next_pending_quiet_and_subscribed : forall fuel x' w H H',
-  OrdH H -> S x' < length (cmds H) -> poll_next (S fuel) (S x') w H = Some (PNPending, H') ->
+  OrdH H -> waker_lt w (S x') -> S x' < length (cmds H) -> poll_next (S fuel) (S x') w H = Some (PNPending, H') ->
   c_evs (gcmd (S x') H') = [] /\ c_eff (gcmd (S x') H') = [] /\
   (was_aborted (S x') H' = false -> c_ready (gcmd (S x') H') = [] /\ c_spawnq (gcmd (S x') H') = []) /\
   Q (S x') w H' /\ OrdH H'.
 Proof.
-  intros fuel x' w H H' O L E.
+  intros fuel x' w H H' O Wl L E.
   destruct (specH_all (S fuel)) as (_ & Sn & _).
   pose proof E as E0. unfold poll_next in E0.
-  destruct (Sn x' w (S x') w H PNPending H' (Nat.lt_succ_diag_r x') O E0) as (S1 & Qx).
+  destruct (Sn x' w (S x') w H PNPending H' (Nat.lt_succ_diag_r x') Wl O E0) as (S1 & Qx).
   unfold poll_next in E. cbn [funs step_funs rpoll_next] in E. unfold poll_next_body in E.
   set (x := S x') in *. set (H0' := ucmd x (set_atomic (Some w)) H) in *.
   assert (L0 : x < length (cmds H0')) by (unfold H0', ucmd; simpl; pose proof (length_updd cmd0 x (set_atomic (Some w)) (cmds H)); lia).
@@ -731,4 +760,44 @@ Proof.
   assert (X : H2 = H') by (destruct (c_len (gcmd x H2) =? 0); [discriminate | congruence]). subst H'.
   split; [exact EV2 | split; [exact EF2 | split; [|split; [apply Qx; reflexivity | apply (St_ord _ _ _ _ S1 O)]]]].
   intros A2. apply Qu2. eapply was_aborted_false_back; [exact L1 | apply (proj1 (proj2 (proj2 (frame_meta fuel))) _ _ _ E2) | exact A2].
+Qed.
+
+(* ---------- a wake always has enough fuel ---------- *)
+(* Wakes start with fuel [wfuel w] = S (the waker's command id).  The cell of a command only ever holds a waker of a
+   command created earlier, so the ids along a chain of hosts strictly decrease and the fuel cannot run out: more
+   fuel changes nothing.  The model has no bound on the nesting depth. *)
+Definition AOrd (H : heap) : Prop := forall z w, c_atomic (gcmd z H) = Some w -> waker_lt w z.
+Lemma OrdH_AOrd H : OrdH H -> AOrd H. Proof. intros (_ & A). exact A. Qed.
+Lemma AOrd_keep c f H : (forall cm, c_atomic (f cm) = c_atomic cm \/ c_atomic (f cm) = None) -> AOrd H -> AOrd (ucmd c f H).
+Proof.
+  intros Fa A z w E. destruct (Nat.eq_dec c z) as [->|Hne].
+  - rewrite gcmd_ucmd_same in E. destruct (Fa (gcmd z H)) as [X|X]; rewrite X in E; [apply A; exact E | discriminate].
+  - rewrite gcmd_ucmd_other in E by exact Hne. apply A; exact E.
+Qed.
+Theorem wake_one_more_changes_nothing : forall f w H, AOrd H -> wfuel w <= f -> wake (S f) w H = wake f w H.
+Proof.
+  induction f as [|f IH]; intros w H A L.
+  - destruct w as [c s g|q]; [cbn [wfuel] in L; lia | reflexivity].
+  - destruct w as [c s g|q]; [|reflexivity]. cbn [wfuel] in L.
+    change (wake (S (S f)) (WCmd c s g) H) with
+      (let H1 := if c_alive (gcmd c H) then ucmd c (fun cm => set_ready (c_ready cm ++ [s]) cm) H else H in
+       let H2 := set_woken g H1 in
+       match c_atomic (gcmd c H2) with Some w' => wake (S f) w' (ucmd c (set_atomic None) H2) | None => note B_AtomicEmpty H2 end).
+    change (wake (S f) (WCmd c s g) H) with
+      (let H1 := if c_alive (gcmd c H) then ucmd c (fun cm => set_ready (c_ready cm ++ [s]) cm) H else H in
+       let H2 := set_woken g H1 in
+       match c_atomic (gcmd c H2) with Some w' => wake f w' (ucmd c (set_atomic None) H2) | None => note B_AtomicEmpty H2 end).
+    cbv zeta.
+    set (H1 := if c_alive (gcmd c H) then ucmd c (fun cm => set_ready (c_ready cm ++ [s]) cm) H else H).
+    assert (A1 : AOrd H1) by (subst H1; destruct (c_alive (gcmd c H)); [apply AOrd_keep; [intros cm; left; destruct cm; reflexivity | exact A] | exact A]).
+    assert (A2 : AOrd (set_woken g H1)) by exact A1.
+    destruct (c_atomic (gcmd c (set_woken g H1))) as [w'|] eqn:EA; [|reflexivity].
+    apply IH.
+    + apply AOrd_keep; [intros cm; right; destruct cm; reflexivity | exact A2].
+    + pose proof (A2 c w' EA) as Lt. destruct w' as [c' s' g'|q']; cbn [wfuel waker_lt] in *; lia.
+Qed.
+Corollary wake_fuel_suffices : forall n w H, AOrd H -> wake (n + wfuel w) w H = wake (wfuel w) w H.
+Proof.
+  induction n as [|n IH]; intros w H A; [reflexivity|].
+  change (S n + wfuel w) with (S (n + wfuel w)). rewrite wake_one_more_changes_nothing by (exact A || lia). apply IH; exact A.
 Qed.
